@@ -18,6 +18,7 @@ import (
 	"verifharness/internal/box"
 	"verifharness/internal/gen"
 	"verifharness/internal/pbt"
+	"verifharness/internal/val"
 )
 
 // Op: one atom operation issued by a thread (or inline by the scheduler).
@@ -31,7 +32,7 @@ type Op struct {
 
 // Ev: one scheduler step.
 type Ev struct {
-	Kind   string // start await release inline sleep
+	Kind   string // start await release inline cancel sleep
 	Thread int    `json:",omitempty"`
 	Gate   int    `json:",omitempty"`
 	Op     *Op    `json:",omitempty"`
@@ -71,6 +72,13 @@ func (o Op) text() string {
 		return fmt.Sprintf("(swap! %s (fn (x) (do %s(+ x (h-deref %d)))))", a, g, o.Other)
 	case "resetother":
 		return fmt.Sprintf("(swap! %s (fn (x) (do %s(h-reset! %d %d) (+ x 1))))", a, g, o.Other, o.Arg)
+	case "resetseq":
+		return fmt.Sprintf("(reset! %s %s)", a, seqValues[o.Arg%len(seqValues)].src)
+	case "conj":
+		return fmt.Sprintf("(swap! %s conj %d)", a, o.Arg)
+	case "addcancel":
+		// the update function's last step is a Go builtin that parks (ignoring the context) and then returns
+		return fmt.Sprintf("(swap! %s (fn (x) (hold-add! %d x %d)))", a, o.Gate, o.Arg)
 	case "gensym":
 		return "(str (gensym))"
 	case "memo":
@@ -79,11 +87,21 @@ func (o Op) text() string {
 	return "nil"
 }
 
+var seqValues = []struct {
+	src string
+	v   val.V
+}{
+	{"[1 2]", val.Vc(val.I(1), val.I(2))},
+	{"(list 1 2)", val.L(val.I(1), val.I(2))},
+	{"[1 2 3]", val.Vc(val.I(1), val.I(2), val.I(3))},
+	{"(list)", val.L()},
+}
+
 // ---- generation ----
 
 func genOp(t *rapid.T, atoms int, allowGate bool) Op {
 	o := Op{Gate: -1, Atom: gen.Uniform(t, "atom", atoms), Arg: 1 + gen.Uniform(t, "arg", 5)}
-	kinds := []string{"deref", "deref", "reset", "add", "add", "add", "fail", "addself", "addother", "resetother", "gensym", "memo"}
+	kinds := []string{"deref", "deref", "reset", "add", "add", "add", "fail", "addself", "addother", "resetother", "gensym", "memo", "resetseq", "resetseq", "conj"}
 	o.Kind = kinds[gen.Uniform(t, "kind", len(kinds))]
 	if atoms < 2 && (o.Kind == "addother" || o.Kind == "resetother") {
 		o.Kind = "add"
@@ -93,6 +111,9 @@ func genOp(t *rapid.T, atoms int, allowGate bool) Op {
 	}
 	if o.Kind == "reset" {
 		o.Arg = 100 + gen.Uniform(t, "resetv", 50)
+	}
+	if o.Kind == "resetseq" {
+		o.Arg = gen.Uniform(t, "seqv", len(seqValues))
 	}
 	switch o.Kind {
 	case "add", "fail", "addself", "addother", "resetother":
@@ -123,6 +144,20 @@ func genCase(t *rapid.T) Case {
 			// wait until the update function is parked (it has read the value), change the atom, let it go on
 			c.Sched = append(c.Sched, Ev{Kind: "await", Gate: 0}, Ev{Kind: "inline", Op: &op}, Ev{Kind: "release", Gate: 0})
 		}
+		return c
+	}
+	if gen.Uniform(t, "pattern2", 8) == 0 {
+		// a swap whose evaluation is cancelled while its update function is parked and that loses the race
+		c.Threads = [][]Op{{{Kind: "addcancel", Atom: 0, Arg: 1, Gate: 0}, {Kind: "deref", Atom: 0, Gate: -1}}, {{Kind: "deref", Atom: 0, Gate: -1}, {Kind: "add", Atom: 0, Arg: 2, Gate: -1}}}
+		op := Op{Kind: "reset", Atom: 0, Arg: 300, Gate: -1}
+		c.Sched = []Ev{{Kind: "start", Thread: 0}, {Kind: "await", Gate: 0}}
+		if gen.Uniform(t, "lose", 3) > 0 {
+			c.Sched = append(c.Sched, Ev{Kind: "inline", Op: &op})
+		}
+		if gen.Uniform(t, "docancel", 3) > 0 {
+			c.Sched = append(c.Sched, Ev{Kind: "cancel", Thread: 0})
+		}
+		c.Sched = append(c.Sched, Ev{Kind: "release", Gate: 0}, Ev{Kind: "start", Thread: 1})
 		return c
 	}
 	nt := 2 + gen.Uniform(t, "threads", 5)
@@ -166,11 +201,14 @@ type opIn struct {
 	Kind string
 	Atom int
 	Arg  int
+	Seq  string // resetseq: canonical text of the value
 }
 type opOut struct {
-	Val int
+	Val string // canonical text of the returned value
 	Err bool
 }
+
+func canonInt(i int) string { return val.Canon(val.I(i)) }
 
 type gate struct {
 	arrive  chan struct{}
@@ -179,17 +217,20 @@ type gate struct {
 }
 
 type runner struct {
-	env   types.EnvType
-	gates []*gate
-	mu    sync.Mutex
-	hist  []porcupine.Operation
-	syms  []string
-	notes []string
+	cancels sync.Map // client -> context.CancelFunc of the operation in flight
+	env     types.EnvType
+	gates   []*gate
+	mu      sync.Mutex
+	hist    []porcupine.Operation
+	syms    []string
+	notes   []string
 }
 
 type tlocal struct {
-	client   int
-	lastRead int
+	client      int
+	lastRead    int
+	lastReadInt bool
+	cancel      context.CancelFunc
 }
 
 type tlKey struct{}
@@ -235,6 +276,24 @@ func newRunner(c Case, gatesOpen bool) *runner {
 			}
 		}
 	})
+	call.CallOverrideFN(r.env, "hold-add!", func(id, x, k int) (types.MalType, error) {
+		g := r.gates[id]
+		if !g.open.Load() {
+			g.arrive <- struct{}{}
+		wait:
+			for {
+				select {
+				case <-g.release:
+					break wait
+				case <-time.After(2 * time.Millisecond):
+					if g.open.Load() {
+						break wait
+					}
+				}
+			}
+		}
+		return x + k, nil
+	})
 	derefFn, _ := box.Lookup(r.env, "deref")
 	resetFn, _ := box.Lookup(r.env, "reset!")
 	atomOf := func(i int) types.MalType { v, _ := box.Lookup(r.env, fmt.Sprintf("a%d", i)); return v }
@@ -249,9 +308,10 @@ func newRunner(c Case, gatesOpen bool) *runner {
 		cl := 99
 		if tl != nil {
 			cl = tl.client
-			tl.lastRead = v.(int)
+			iv, ok := v.(int)
+			tl.lastRead, tl.lastReadInt = iv, ok
 		}
-		r.record(cl, opIn{"deref", i, 0}, opOut{Val: v.(int)}, t0, t1)
+		r.record(cl, opIn{Kind: "deref", Atom: i}, opOut{Val: val.Canon(val.From(v))}, t0, t1)
 		return v, nil
 	})
 	call.CallOverrideFN(r.env, "h-reset!", func(ctx context.Context, i, k int) (types.MalType, error) {
@@ -266,7 +326,7 @@ func newRunner(c Case, gatesOpen bool) *runner {
 		if tl != nil {
 			cl = tl.client
 		}
-		r.record(cl, opIn{"reset", i, k}, opOut{Val: v.(int)}, t0, t1)
+		r.record(cl, opIn{Kind: "reset", Atom: i, Arg: k}, opOut{Val: val.Canon(val.From(v))}, t0, t1)
 		return v, nil
 	})
 	return r
@@ -274,8 +334,11 @@ func newRunner(c Case, gatesOpen bool) *runner {
 
 // exec runs one top-level operation and records it. Returns a description of an unexpected outcome.
 func (r *runner) exec(ctx context.Context, client int, o Op) string {
+	opCtx, cancel := context.WithCancel(ctx)
+	defer cancel()
+	r.cancels.Store(client, cancel)
 	tl := &tlocal{client: client}
-	ctx = context.WithValue(ctx, tlKey{}, tl)
+	ctx = context.WithValue(opCtx, tlKey{}, tl)
 	ast, err := lisp.READ(o.text(), nil, r.env)
 	if err != nil {
 		return "READ " + o.text() + ": " + err.Error()
@@ -285,6 +348,10 @@ func (r *runner) exec(ctx context.Context, client int, o Op) string {
 	t1 := time.Now().UnixNano()
 	if res.Panicked {
 		return fmt.Sprintf("%s panicked: %v", o.text(), res.PanicVal)
+	}
+	out := opOut{Err: res.Err != nil}
+	if res.Err == nil {
+		out.Val = val.Canon(val.From(res.Val))
 	}
 	switch o.Kind {
 	case "gensym":
@@ -304,29 +371,55 @@ func (r *runner) exec(ctx context.Context, client int, o Op) string {
 		if res.Err == nil {
 			return fmt.Sprintf("%s returned %v instead of the update function's error", o.text(), res.Val)
 		}
-		r.record(client, opIn{"fail", o.Atom, 0}, opOut{Err: true}, t0, t1)
+		r.record(client, opIn{Kind: "fail", Atom: o.Atom}, out, t0, t1)
 		return ""
-	}
-	if res.Err != nil {
-		return fmt.Sprintf("%s failed: %v", o.text(), res.Err)
-	}
-	v, ok := res.Val.(int)
-	if !ok {
-		return fmt.Sprintf("%s returned %T %v", o.text(), res.Val, res.Val)
-	}
-	switch o.Kind {
 	case "deref":
-		r.record(client, opIn{"deref", o.Atom, 0}, opOut{Val: v}, t0, t1)
+		if res.Err != nil {
+			return fmt.Sprintf("%s failed: %v", o.text(), res.Err)
+		}
+		r.record(client, opIn{Kind: "deref", Atom: o.Atom}, out, t0, t1)
 	case "reset":
-		r.record(client, opIn{"reset", o.Atom, o.Arg}, opOut{Val: v}, t0, t1)
+		if res.Err != nil {
+			return fmt.Sprintf("%s failed: %v", o.text(), res.Err)
+		}
+		r.record(client, opIn{Kind: "reset", Atom: o.Atom, Arg: o.Arg}, out, t0, t1)
+	case "resetseq":
+		if res.Err != nil {
+			return fmt.Sprintf("%s failed: %v", o.text(), res.Err)
+		}
+		r.record(client, opIn{Kind: "resetseq", Atom: o.Atom, Seq: val.Canon(seqValues[o.Arg%len(seqValues)].v)}, out, t0, t1)
+	case "conj":
+		r.record(client, opIn{Kind: "conj", Atom: o.Atom, Arg: o.Arg}, out, t0, t1)
 	case "add", "addself":
-		r.record(client, opIn{"add", o.Atom, o.Arg}, opOut{Val: v}, t0, t1)
+		// on an atom that currently holds a sequence the update function fails: the model decides
+		r.record(client, opIn{Kind: "add", Atom: o.Atom, Arg: o.Arg}, out, t0, t1)
+	case "addcancel":
+		// the evaluation may have been cancelled: then the swap either installed its result or failed
+		r.record(client, opIn{Kind: "add-or-fail", Atom: o.Atom, Arg: o.Arg}, out, t0, t1)
 	case "addother":
-		r.record(client, opIn{"add", o.Atom, tl.lastRead}, opOut{Val: v}, t0, t1)
+		if !tl.lastReadInt {
+			// the other atom held a sequence when the (last) application read it: (+ x <seq>) fails
+			r.record(client, opIn{Kind: "fail", Atom: o.Atom}, out, t0, t1)
+		} else {
+			r.record(client, opIn{Kind: "add", Atom: o.Atom, Arg: tl.lastRead}, out, t0, t1)
+		}
 	case "resetother":
-		r.record(client, opIn{"add", o.Atom, 1}, opOut{Val: v}, t0, t1)
+		r.record(client, opIn{Kind: "add", Atom: o.Atom, Arg: 1}, out, t0, t1)
 	}
 	return ""
+}
+
+// parse the canonical text of a model state
+func stateOf(s string) (isInt bool, i int, isVec bool, elems []string) {
+	if len(s) > 0 && (s[0] == '[' || s[0] == '(') {
+		inner := strings.TrimSpace(s[1 : len(s)-1])
+		if inner != "" {
+			elems = strings.Fields(inner)
+		}
+		return false, 0, s[0] == '[', elems
+	}
+	fmt.Sscan(s, &i)
+	return true, i, false, nil
 }
 
 var model = porcupine.Model{
@@ -342,17 +435,45 @@ var model = porcupine.Model{
 		}
 		return out
 	},
-	Init: func() interface{} { return initial },
+	Init: func() interface{} { return canonInt(initial) },
 	Step: func(state, input, output interface{}) (bool, interface{}) {
-		s := state.(int)
+		s := state.(string)
 		in, out := input.(opIn), output.(opOut)
+		isInt, iv, isVec, elems := stateOf(s)
 		switch in.Kind {
 		case "deref":
-			return out.Val == s, s
+			return !out.Err && out.Val == s, s
 		case "reset":
-			return out.Val == in.Arg, in.Arg
+			return !out.Err && out.Val == canonInt(in.Arg), canonInt(in.Arg)
+		case "resetseq":
+			return !out.Err && out.Val == in.Seq, in.Seq
 		case "add":
-			return out.Val == s+in.Arg, s + in.Arg
+			if !isInt {
+				return out.Err, s
+			}
+			n := canonInt(iv + in.Arg)
+			return !out.Err && out.Val == n, n
+		case "add-or-fail":
+			if out.Err {
+				return true, s
+			}
+			if !isInt {
+				return false, s
+			}
+			n := canonInt(iv + in.Arg)
+			return out.Val == n, n
+		case "conj":
+			if isInt {
+				return out.Err, s
+			}
+			x := canonInt(in.Arg)
+			var n string
+			if isVec {
+				n = "[" + strings.Join(append(append([]string{}, elems...), x), " ") + "]"
+			} else {
+				n = "(" + strings.Join(append([]string{x}, elems...), " ") + ")"
+			}
+			return !out.Err && out.Val == n, n
 		case "fail":
 			return out.Err, s
 		}
@@ -360,7 +481,7 @@ var model = porcupine.Model{
 	},
 	DescribeOperation: func(input, output interface{}) string {
 		in, out := input.(opIn), output.(opOut)
-		return fmt.Sprintf("%s a%d %d -> %d err=%v", in.Kind, in.Atom, in.Arg, out.Val, out.Err)
+		return fmt.Sprintf("%s a%d %d%s -> %s err=%v", in.Kind, in.Atom, in.Arg, in.Seq, out.Val, out.Err)
 	},
 }
 
@@ -384,6 +505,8 @@ func describe(c Case) string {
 			sb.WriteString(fmt.Sprintf(" await(g%d)", e.Gate))
 		case "inline":
 			sb.WriteString(" inline[" + e.Op.text() + "]")
+		case "cancel":
+			sb.WriteString(fmt.Sprintf(" cancel-evaluation-of(%d)", e.Thread))
 		case "sleep":
 			sb.WriteString(fmt.Sprintf(" sleep(%dms)", e.Ms))
 		}
@@ -395,7 +518,7 @@ func histText(h []porcupine.Operation) string {
 	var sb strings.Builder
 	for _, op := range h {
 		in, out := op.Input.(opIn), op.Output.(opOut)
-		sb.WriteString(fmt.Sprintf("  client %d: %s a%d %d -> %d err=%v  [%d .. %d]\n", op.ClientId, in.Kind, in.Atom, in.Arg, out.Val, out.Err, op.Call, op.Return))
+		sb.WriteString(fmt.Sprintf("  client %d: %s a%d %d%s -> %s err=%v  [%d .. %d]\n", op.ClientId, in.Kind, in.Atom, in.Arg, in.Seq, out.Val, out.Err, op.Call, op.Return))
 	}
 	return sb.String()
 }
@@ -494,6 +617,10 @@ func check(c Case) pbt.Verdict {
 			case <-done:
 			case <-time.After(150 * time.Millisecond):
 				waited = true
+			}
+		case "cancel":
+			if cf, ok := r.cancels.Load(e.Thread); ok {
+				cf.(context.CancelFunc)()
 			}
 		case "sleep":
 			time.Sleep(time.Duration(e.Ms) * time.Millisecond)
